@@ -29,66 +29,159 @@ enum Obj {
     DUniform(DiscreteUniform),
 }
 
-/// Reads `<dist> <params>` completely (so that a malformed line is `bad-op`, not a panic), and returns a
-/// closure that runs the real constructor.
-fn parse_obj(t: &mut Toks) -> R<Box<dyn FnOnce() -> Obj>> {
-    let d = t.tok()?;
+#[derive(Clone, Copy)]
+enum Params {
+    F1(f64),
+    F2(f64, f64),
+    U(usize),
+    NB(u64, f64),
+    I2(i64, i64),
+}
+
+fn read_params(d: &str, t: &mut Toks) -> R<Params> {
     Ok(match d {
-        "normal" => {
-            let (a, b) = (t.f64()?, t.f64()?);
-            Box::new(move || Obj::Normal(Normal::new(a, b)))
-        }
-        "gamma" => {
-            let (a, b) = (t.f64()?, t.f64()?);
-            Box::new(move || Obj::Gamma(Gamma::new(a, b)))
-        }
-        "beta" => {
-            let (a, b) = (t.f64()?, t.f64()?);
-            Box::new(move || Obj::Beta(Beta::new(a, b)))
-        }
-        "chi2" => {
-            let k = t.usize()?;
-            Box::new(move || Obj::Chi2(ChiSquared::new(k)))
-        }
-        "t" => {
-            let v = t.f64()?;
-            Box::new(move || Obj::T(T::new(v)))
-        }
-        "pareto" => {
-            let (a, b) = (t.f64()?, t.f64()?);
-            Box::new(move || Obj::Pareto(Pareto::new(a, b)))
-        }
-        "gumbel" => {
-            let (a, b) = (t.f64()?, t.f64()?);
-            Box::new(move || Obj::Gumbel(Gumbel::new(a, b)))
-        }
-        "exponential" => {
-            let l = t.f64()?;
-            Box::new(move || Obj::Exponential(Exponential::new(l)))
-        }
-        "uniform" => {
-            let (a, b) = (t.f64()?, t.f64()?);
-            Box::new(move || Obj::Uniform(Uniform::new(a, b)))
-        }
-        "poisson" => {
-            let l = t.f64()?;
-            Box::new(move || Obj::Poisson(Poisson::new(l)))
-        }
-        "binomial" => {
-            let n = t.u64()?;
-            let p = t.f64()?;
-            Box::new(move || Obj::Binomial(Binomial::new(n, p)))
-        }
-        "bernoulli" => {
-            let p = t.f64()?;
-            Box::new(move || Obj::Bernoulli(Bernoulli::new(p)))
-        }
-        "duniform" => {
-            let (a, b) = (t.i64()?, t.i64()?);
-            Box::new(move || Obj::DUniform(DiscreteUniform::new(a, b)))
-        }
+        "normal" | "gamma" | "beta" | "pareto" | "gumbel" | "uniform" => Params::F2(t.f64()?, t.f64()?),
+        "t" | "exponential" | "poisson" | "bernoulli" => Params::F1(t.f64()?),
+        "chi2" => Params::U(t.usize()?),
+        "binomial" => Params::NB(t.u64()?, t.f64()?),
+        "duniform" => Params::I2(t.i64()?, t.i64()?),
         _ => return Err(BadOp),
     })
+}
+
+fn build(d: &str, p: Params) -> Obj {
+    match (d, p) {
+        ("normal", Params::F2(a, b)) => Obj::Normal(Normal::new(a, b)),
+        ("gamma", Params::F2(a, b)) => Obj::Gamma(Gamma::new(a, b)),
+        ("beta", Params::F2(a, b)) => Obj::Beta(Beta::new(a, b)),
+        ("chi2", Params::U(k)) => Obj::Chi2(ChiSquared::new(k)),
+        ("t", Params::F1(v)) => Obj::T(T::new(v)),
+        ("pareto", Params::F2(a, b)) => Obj::Pareto(Pareto::new(a, b)),
+        ("gumbel", Params::F2(a, b)) => Obj::Gumbel(Gumbel::new(a, b)),
+        ("exponential", Params::F1(l)) => Obj::Exponential(Exponential::new(l)),
+        ("uniform", Params::F2(a, b)) => Obj::Uniform(Uniform::new(a, b)),
+        ("poisson", Params::F1(l)) => Obj::Poisson(Poisson::new(l)),
+        ("binomial", Params::NB(n, p)) => Obj::Binomial(Binomial::new(n, p)),
+        ("bernoulli", Params::F1(p)) => Obj::Bernoulli(Bernoulli::new(p)),
+        ("duniform", Params::I2(a, b)) => Obj::DUniform(DiscreteUniform::new(a, b)),
+        _ => unreachable!(),
+    }
+}
+
+/// Peripheral routes to the same object: `set` = every setter in declaration order, `rset` = reverse order,
+/// `upd` = `Distribution1D::update(&[..])`, `clone` = a clone of the directly constructed object.
+fn apply_route(o: &mut Obj, route: &str, p: Params) -> R<()> {
+    let rev = route == "rset";
+    match route {
+        "set" | "rset" => match (o, p) {
+            (Obj::Normal(d), Params::F2(a, b)) => {
+                if rev { d.set_sigma(b).set_mu(a); } else { d.set_mu(a).set_sigma(b); }
+            }
+            (Obj::Gamma(d), Params::F2(a, b)) => {
+                if rev { d.set_beta(b).set_alpha(a); } else { d.set_alpha(a).set_beta(b); }
+            }
+            (Obj::Beta(d), Params::F2(a, b)) => {
+                if rev { d.set_beta(b).set_alpha(a); } else { d.set_alpha(a).set_beta(b); }
+            }
+            (Obj::Chi2(d), Params::U(k)) => { d.set_dof(k); }
+            (Obj::T(d), Params::F1(v)) => { d.set_dof(v); }
+            (Obj::Pareto(d), Params::F2(a, b)) => {
+                if rev { d.set_minval(b).set_alpha(a); } else { d.set_alpha(a).set_minval(b); }
+            }
+            (Obj::Gumbel(d), Params::F2(a, b)) => {
+                if rev { d.set_beta(b).set_mu(a); } else { d.set_mu(a).set_beta(b); }
+            }
+            (Obj::Exponential(d), Params::F1(l)) => { d.set_lambda(l); }
+            (Obj::Uniform(d), Params::F2(a, b)) => {
+                if rev { d.set_upper(b).set_lower(a); } else { d.set_lower(a).set_upper(b); }
+            }
+            (Obj::Poisson(d), Params::F1(l)) => { d.set_lambda(l); }
+            (Obj::Binomial(d), Params::NB(n, q)) => {
+                if rev { d.set_p(q).set_n(n); } else { d.set_n(n).set_p(q); }
+            }
+            (Obj::Bernoulli(d), Params::F1(q)) => { d.set_p(q); }
+            (Obj::DUniform(d), Params::I2(a, b)) => {
+                if rev { d.set_upper(b).set_lower(a); } else { d.set_lower(a).set_upper(b); }
+            }
+            _ => return Err(BadOp),
+        },
+        "upd" => {
+            let v: Vec<f64> = match p {
+                Params::F1(a) => vec![a],
+                Params::F2(a, b) => vec![a, b],
+                Params::U(k) => vec![k as f64],
+                Params::NB(n, q) => vec![n as f64, q],
+                Params::I2(a, b) => vec![a as f64, b as f64],
+            };
+            match o {
+                Obj::Normal(d) => d.update(&v),
+                Obj::Gamma(d) => d.update(&v),
+                Obj::Beta(d) => d.update(&v),
+                Obj::Chi2(d) => d.update(&v),
+                Obj::T(d) => d.update(&v),
+                Obj::Pareto(d) => d.update(&v),
+                Obj::Gumbel(d) => d.update(&v),
+                Obj::Exponential(d) => d.update(&v),
+                Obj::Uniform(d) => d.update(&v),
+                Obj::Poisson(d) => d.update(&v),
+                Obj::Binomial(d) => d.update(&v),
+                Obj::Bernoulli(d) => d.update(&v),
+                Obj::DUniform(d) => d.update(&v),
+            }
+        }
+        _ => return Err(BadOp),
+    }
+    Ok(())
+}
+
+/// Reads `<dist>[~route] [<initial params>] <params>` completely (so that a malformed line is `bad-op`, not a
+/// panic), and returns a closure that runs the real constructor (and the route).
+fn parse_obj(t: &mut Toks) -> R<Box<dyn FnOnce() -> Obj>> {
+    let tok = t.tok()?;
+    let mut it = tok.splitn(2, '~');
+    let d: String = it.next().unwrap().to_string();
+    let route: Option<String> = it.next().map(|s| s.to_string());
+    match route {
+        None => {
+            let p = read_params(&d, t)?;
+            Ok(Box::new(move || build(&d, p)))
+        }
+        Some(r) => {
+            if !matches!(r.as_str(), "set" | "rset" | "upd" | "clone") {
+                return Err(BadOp);
+            }
+            let p0 = read_params(&d, t)?;
+            let p1 = read_params(&d, t)?;
+            Ok(Box::new(move || {
+                if r == "clone" {
+                    let _first = build(&d, p0);
+                    let o = build(&d, p1);
+                    return clone_obj(&o);
+                }
+                let mut o = build(&d, p0);
+                apply_route(&mut o, &r, p1).expect("route");
+                o
+            }))
+        }
+    }
+}
+
+fn clone_obj(o: &Obj) -> Obj {
+    match o {
+        Obj::Normal(d) => Obj::Normal(d.clone()),
+        Obj::Gamma(d) => Obj::Gamma(d.clone()),
+        Obj::Beta(d) => Obj::Beta(d.clone()),
+        Obj::Chi2(d) => Obj::Chi2(d.clone()),
+        Obj::T(d) => Obj::T(d.clone()),
+        Obj::Pareto(d) => Obj::Pareto(d.clone()),
+        Obj::Gumbel(d) => Obj::Gumbel(d.clone()),
+        Obj::Exponential(d) => Obj::Exponential(d.clone()),
+        Obj::Uniform(d) => Obj::Uniform(d.clone()),
+        Obj::Poisson(d) => Obj::Poisson(d.clone()),
+        Obj::Binomial(d) => Obj::Binomial(d.clone()),
+        Obj::Bernoulli(d) => Obj::Bernoulli(d.clone()),
+        Obj::DUniform(d) => Obj::DUniform(d.clone()),
+    }
 }
 
 fn pdf(o: &Obj, x: f64) -> R<f64> {
@@ -190,13 +283,22 @@ fn step(_: &mut (), t: &mut Toks) -> R<String> {
         }
         "cdf" => {
             let d = t.tok()?;
-            if d != "normal" {
+            if d != "normal" && !d.starts_with("normal~") {
                 return Err(BadOp);
             }
+            let route = d.splitn(2, '~').nth(1).map(|s| s.to_string());
+            let p0 = if route.is_some() { Some((t.f64()?, t.f64()?)) } else { None };
             let (mu, sigma) = (t.f64()?, t.f64()?);
             let xs = t.vec()?;
             t.end()?;
-            let o = Normal::new(mu, sigma);
+            let o = match (route.as_deref(), p0) {
+                (None, _) => Normal::new(mu, sigma),
+                (Some("set"), Some((a, b))) => { let mut n = Normal::new(a, b); n.set_mu(mu).set_sigma(sigma); n }
+                (Some("rset"), Some((a, b))) => { let mut n = Normal::new(a, b); n.set_sigma(sigma).set_mu(mu); n }
+                (Some("upd"), Some((a, b))) => { let mut n = Normal::new(a, b); n.update(&[mu, sigma]); n }
+                (Some("clone"), Some(_)) => Normal::new(mu, sigma).clone(),
+                _ => return Err(BadOp),
+            };
             let mut ys = Vec::with_capacity(xs.len());
             for x in xs {
                 // the argument `Normal::cdf` hands to `erf`; erf(NaN) never returns
